@@ -447,6 +447,7 @@ def execute(program, ch: Chooser) -> Result:  # noqa: C901, PLR0912
         running_at_end = any(s["end"] == "cancelled" for s in r.all_spawned)
         failed_task = any(s["end"] == "raise" for s in r.all_spawned)
         outcome = f"k={len(program['block']['spawns'])}/caught={obs['caught']}/cancelled-children={running_at_end}/failed-child={failed_task}"
+        viols.extend(r.library_errors())
         return Result(outcome, running_at_end or failed_task or body_failed, viols[:4], obs)
     finally:
         r.close()
